@@ -267,6 +267,29 @@ def alignment(S):
                 if bad:
                     bad_all.append(dict(nx=nx, ny=ny, optional=opt, nbdry=nb, nlim=nl, problems=bad[:3]))
     S.static_vc("alignment", FN_W, "write->read returns every scalar, profile, psi[x,y], boundary and limiter at its position for nx,ny in 1..%d (%d shape/variant combinations)" % (nmax, n), not bad_all, detail=repr(bad_all[:2]), kind="native-all-shapes", model=bad_all[0] if bad_all else None)
+    # the count record as the REAL writer lays it out, for every digit-length class of the two counts
+    # (the field layout depends on the number of digits only, the reader's tokeniser is digit-blind:
+    # token lemma above), smallest and largest member of each class; nlim < 10000, nbdry < 100000
+    bad_cnt, ncnt = [], 0
+    for a in range(0, 6):
+        for b in range(0, 5):
+            for pick in ("lo", "hi"):
+                nb = 0 if a == 0 else (10 ** (a - 1) if pick == "lo" else 10**a - 1)
+                nl = 0 if b == 0 else (10 ** (b - 1) if pick == "lo" else 10**b - 1)
+                if pick == "hi" and a <= 1 and b <= 1 and (a, b) != (1, 1):
+                    continue
+                d = mkdata(2, 3, True, nb, nl, itertools.count())
+                try:
+                    text, r = roundtrip(d)
+                    bad = compare(d, r)
+                    if int(r.get("nbdry", nb)) != nb or int(r.get("nlim", nl)) != nl:
+                        bad.append("counts read back as nbdry=%r nlim=%r" % (r.get("nbdry"), r.get("nlim")))
+                except BaseException as e:  # noqa  (StopIteration from the token stream included)
+                    bad = ["exception %r" % e]
+                ncnt += 1
+                if bad:
+                    bad_cnt.append(dict(nbdry=nb, nlim=nl, problems=bad[:3]))
+    S.static_vc("alignment", FN_W, "count record written by the real writer is read back as the two counts, and boundary / limiter follow, for every digit-length class nbdry 0..99999 x nlim 0..9999 (%d round trips)" % ncnt, not bad_cnt, detail=repr(bad_cnt[:2]), kind="native-all-classes", model=bad_cnt[0] if bad_cnt else None)
     # header variants
     badh = []
     hv = [dict(), dict(label="X"), dict(label="ABCDEFGHIJK"), dict(label="A very long label indeed"), dict(shot=12345), dict(shot="#99"), dict(time=250), dict(time=" 12.5s"), dict(label="L", shot=7, time=3)]
